@@ -4,6 +4,7 @@ package c16
 
 import (
 	"bytes"
+	"compress/gzip"
 	"fmt"
 	"github.com/google/pprof/internal/plugin"
 	"github.com/google/pprof/internal/transport"
@@ -772,7 +773,21 @@ func runTLS(c *harness.Ctx, free bool) harness.Result {
 		var buf bytes.Buffer
 		p.Write(&buf)
 		body := buf.Bytes()
-		srv := httptest.NewUnstartedServer(http.HandlerFunc(func(w http.ResponseWriter, _ *http.Request) { w.Write(body) }))
+		// half of the servers sit behind a compressing proxy: the (already gzipped) profile arrives
+		// with Content-Encoding: gzip on top
+		wrapped := r.Intn(2) == 0
+		var zb bytes.Buffer
+		zw := gzip.NewWriter(&zb)
+		zw.Write(body)
+		zw.Close()
+		srv := httptest.NewUnstartedServer(http.HandlerFunc(func(w http.ResponseWriter, _ *http.Request) {
+			if wrapped {
+				w.Header().Set("Content-Encoding", "gzip")
+				w.Write(zb.Bytes())
+				return
+			}
+			w.Write(body)
+		}))
 		srv.Config.ErrorLog = log.New(io.Discard, "", 0)
 		return srv, p
 	}
